@@ -6,6 +6,7 @@ import (
 	"fmt"
 	"net"
 	"os"
+	"time"
 
 	"github.com/smart-core-os/sc-golang/internal/testproto"
 	"github.com/smart-core-os/sc-golang/pkg/wrap"
@@ -13,6 +14,7 @@ import (
 	"github.com/smart-core-os/sc-golang/verifharness/vh"
 	"google.golang.org/grpc"
 	"google.golang.org/grpc/credentials/insecure"
+	"google.golang.org/grpc/metadata"
 	"google.golang.org/grpc/status"
 	"google.golang.org/grpc/test/bufconn"
 )
@@ -440,9 +442,9 @@ func genC13(o *vcoq.Out, r *vcoq.Rand, tier string) error {
 	defer g.close()
 
 	var scs []Scenario
-	nRandom, rounds := 400, 1
+	nRandom, rounds := 1500, 3
 	if tier == "thorough" {
-		nRandom, rounds = 9000, 8
+		nRandom, rounds = 30000, 30
 	}
 	// the systematic family (payloads, metadata and endings are drawn afresh in every round)
 	for i := 0; i < rounds; i++ {
@@ -452,8 +454,13 @@ func genC13(o *vcoq.Out, r *vcoq.Rand, tier string) error {
 		scs = append(scs, genRandom(r, shapes[i%len(shapes)]))
 	}
 
-	leaks := 0
+	leaks, nStuck := 0, 0
 	for _, sc := range scs {
+		if nStuck >= 5 {
+			o.Directs = append(o.Directs, vcoq.Direct{What: "calls keep getting stuck (a step did not complete within its time limit); the run was cut short",
+				Class: "blocked", Replay: map[string]any{"scenario": sc}})
+			break
+		}
 		tw := runScenario(sc, w.srv, w.cc)
 		if n, gr := settleWrapGoroutines(); n != 0 && leaks < 3 {
 			leaks++
@@ -475,6 +482,9 @@ func genC13(o *vcoq.Out, r *vcoq.Rand, tier string) error {
 		for range tg.Notes {
 			stuckG = true
 		}
+		if stuckW || stuckG {
+			nStuck++
+		}
 		key, _ := json.Marshal([]any{sc, tw.Client, tw.Server, tg.Client, tg.Server})
 		o.Add(vcoq.Case{
 			Coq:        vcoq.App("KCall", coqScenario(sc), coqTranscript(tw, stuckW), coqTranscript(tg, stuckG)),
@@ -489,7 +499,13 @@ func genC13(o *vcoq.Out, r *vcoq.Rand, tier string) error {
 			Class: "metadata-lost", Replay: map[string]any{"wrap": w.srv.stray, "grpc": g.srv.stray}})
 	}
 	lookupCases(o, w, g)
-	o.Extra["coverage_extra"] = map[string]any{"transports": []string{"wrap.ServerToClient", "grpc.Server over bufconn"}, "goroutine_checks": len(scs)}
+	nIso := 200
+	if tier == "thorough" {
+		nIso = 4000
+	}
+	isolationCases(o, r, nIso)
+	abandonCases(o)
+	o.Extra["coverage_extra"] = map[string]any{"transports": []string{"wrap.ServerToClient", "grpc.Server over bufconn"}, "goroutine_checks": len(scs), "deep_isolation_checks": nIso}
 	return nil
 }
 
@@ -569,5 +585,82 @@ func lookupCases(o *vcoq.Out, w, g *transport) {
 	if n, gr := settleWrapGoroutines(); n != 0 {
 		o.Directs = append(o.Directs, vcoq.Direct{What: fmt.Sprintf("%d goroutine(s) still inside pkg/wrap after cancelled NewStream calls: %s", n, firstLines(gr, 6)),
 			Class: "goroutine-left", Replay: map[string]any{"scenario": "NewStream then cancel, every method and stream description"}})
+	}
+}
+
+// Wrapper only: one side is blocked in a channel operation nobody will ever meet when the client
+// cancels.  Outside the rendezvous fragment nothing is compared with gRPC, but the blocked operation
+// must return and no goroutine may stay behind.
+func abandonCases(o *vcoq.Out) {
+	type variant struct {
+		name  string
+		shape string
+		run   func(ctx context.Context, cancel func(), cc grpc.ClientConnInterface, ctl *callCtl) string
+	}
+	wait := func(ch <-chan Obs, what string) string {
+		select {
+		case <-ch:
+			return ""
+		case <-time.After(stepTimeout):
+			return what + " did not return after the client cancelled"
+		}
+	}
+	variants := []variant{
+		{"handler blocked in SendMsg, nobody receiving", "serverStream", func(ctx context.Context, cancel func(), cc grpc.ClientConnInterface, ctl *callCtl) string {
+			ctl.cmd <- srvCmd{k: "send", m: 1}
+			time.Sleep(300 * time.Microsecond)
+			cancel()
+			return wait(ctl.res, "server SendMsg")
+		}},
+		{"handler blocked in SendMsg, nobody receiving", "bidi", func(ctx context.Context, cancel func(), cc grpc.ClientConnInterface, ctl *callCtl) string {
+			ctl.cmd <- srvCmd{k: "send", m: 1}
+			time.Sleep(300 * time.Microsecond)
+			cancel()
+			return wait(ctl.res, "server SendMsg")
+		}},
+		{"handler blocked in RecvMsg, nobody sending", "bidi", func(ctx context.Context, cancel func(), cc grpc.ClientConnInterface, ctl *callCtl) string {
+			ctl.cmd <- srvCmd{k: "recv"}
+			time.Sleep(300 * time.Microsecond)
+			cancel()
+			return wait(ctl.res, "server RecvMsg")
+		}},
+	}
+	for _, v := range variants {
+		w := newWrapTransport()
+		callSeq++
+		id := fmt.Sprint(callSeq)
+		ctx, cancel := context.WithCancel(metadata.AppendToOutgoingContext(context.Background(), callIDKey, id))
+		ctl := &callCtl{shape: v.shape, cmd: make(chan srvCmd), res: make(chan Obs, 4), entered: make(chan Obs, 1), exited: make(chan struct{})}
+		w.srv.set(id, ctl)
+		method, desc := methodOf(v.shape)
+		st, err := w.cc.NewStream(ctx, desc, method)
+		problem := ""
+		if err != nil {
+			problem = "NewStream failed: " + err.Error()
+		} else {
+			if autoRecv(v.shape) {
+				go func() { _ = st.SendMsg(mkReq(v.shape, 1)); _ = st.CloseSend() }()
+			}
+			select {
+			case <-ctl.entered:
+				problem = v.run(ctx, cancel, w.cc, ctl)
+			case <-time.After(stepTimeout):
+				problem = "handler was not entered"
+			}
+		}
+		cancel()
+		select {
+		case ctl.cmd <- srvCmd{k: "ret", step: Step{K: "Ret", Ok: true}}:
+		case <-time.After(stepTimeout):
+		}
+		n, gr := settleWrapGoroutines()
+		if problem != "" {
+			o.Directs = append(o.Directs, vcoq.Direct{What: "wrap: " + v.name + ": " + problem, Class: "blocked",
+				Replay: map[string]any{"variant": v.name, "shape": v.shape}})
+		}
+		if n != 0 {
+			o.Directs = append(o.Directs, vcoq.Direct{What: fmt.Sprintf("wrap: %s, then client cancel: %d goroutine(s) still inside pkg/wrap: %s", v.name, n, firstLines(gr, 6)),
+				Class: "goroutine-left", Replay: map[string]any{"variant": v.name, "shape": v.shape}})
+		}
 	}
 }
